@@ -545,7 +545,10 @@ fn drive_rxwrap<T: Transport>(t: T, _p: &VsParams, _rng: &mut SmallRng) -> Strin
 }
 
 pub fn run(p: &VsParams, sc: &str) -> (Vec<Vec<String>>, Value) {
+    // every third scenario runs on a platform that maps buffers in place (no bounce copies)
+    INPLACE_MODE.with(|m| m.set(p.seed % 3 == 0));
     reset_world();
+    INPLACE_MODE.with(|m| m.set(false));
     let mut rng = SmallRng::seed_from_u64(p.seed);
     let big = p.mode != "random";
     engine::install(Box::new(VsPers { incoming: VecDeque::new(), rx_taken: vec![], peers: BTreeMap::new(), big }), policy_of(&p.policy), p.seed ^ 0x99, true);
